@@ -1330,6 +1330,9 @@ class Model:
         seeds = jax.random.split(seed, len(dists))
 
         for dist, seed in zip(dists, seeds):
+            # the inputs of the distribution must reflect the values drawn so far,
+            # also if auto_update is off
+            self.update(*(node.name for node in dist.all_input_nodes()))
             tfp_dist = dist.init_dist()
 
             event_shape = tfp_dist.event_shape
